@@ -52,6 +52,13 @@ func genC02Fact(t *rapid.T, label string) M {
 		f["x!"] = gen.Value(t, o, 1, label+".bang")
 	case 1:
 		f["rule"] = gen.String(t, o, label+".rule")
+	case 3:
+		// an object under "rule": a rule body (with or without what a
+		// rule needs) - whatever is decided about it when it is added
+		// has to hold for the location loaded from storage, too
+		f["rule"] = rapid.SampledFrom([]interface{}{
+			M{"text": "x"}, M{}, M{"when": M{"pattern": M{"a": "x"}}, "action": M{"code": "1"}}, M{"when": "x"},
+		}).Draw(t, label+".rulebody")
 	case 2:
 		// a property fact: canonical id !<target>.<prop>
 		f = M{"!p": gen.Scalar(t, o, label+".prop"), "id": rapid.SampledFrom([]string{"f1", "f2", "zz"}).Draw(t, label+".target")}
